@@ -325,7 +325,7 @@ func runTraversal(t *testing.T, scn *tScenario, prefix []int, envMode bool) (x e
 		}
 		h.op = traversal.Start(in)
 		c.isLoop = func(name string) bool {
-			return strings.HasSuffix(name, "(*Operation).run") || strings.Contains(name, "(*Operation).Stop.")
+			return strings.Contains(name, "(*Operation).run") || strings.Contains(name, "(*Operation).Stop.")
 		}
 		c.stateKey = func() string {
 			s := h.op.VerifSnapshot()
